@@ -1415,6 +1415,28 @@ def storage_rule(prog, res, rule, f, fl, pl, al):
         res.viol(rule, 'frame.storage', f.loc(), '; '.join(why), function=f.sig, expr='frame.storage')
 
 
+def io_paths(items):
+    """expand alternatives: -> list of (conditions, [io dict]) for every path, or None when the
+    items contain a loop / call / recursion (not a straight-line leaf writer)"""
+    paths = [([], [])]
+    for it in io_only(items):
+        if it[0] == 'io':
+            for c, l in paths:
+                l.append(it[1])
+        elif it[0] == 'alt':
+            a, b = io_paths(it[2]), io_paths(it[3])
+            if a is None or b is None:
+                return None
+            new = []
+            for c, l in paths:
+                for (ca, la), pol in [(x, '') for x in a] + [(x, '!') for x in b]:
+                    new.append((c + [pol + str(it[1])] + ca, l + la))
+            paths = new
+        else:
+            return None
+    return paths
+
+
 def frame_writer_rule(prog, res, rule='frame-write'):
     f = prog.fn('ezc3d::DataNS::Data::write', nparams=1)
     seq = io_only(codec.Extractor(prog, 'w').seq_of(f))
@@ -1449,13 +1471,21 @@ def frame_writer_rule(prog, res, rule='frame-write'):
     pl = only_loop(parts[0][3], r'.*_points\._points\.size$')
     pc = only_call(pl[3], 'Point::write') if pl else None
     if pc:
-        ws = [it[1] for it in io_only(pc[3]) if it[0] == 'io']
-        got = [(re.sub(r'^.*\._data', '_data', d.get('src', '')), pshow(d.get('width')), d.get('src_tc'), d.get('src_tw')) for d in ws]
+        pp = io_paths(pc[3])
         want = [('_data[%d]' % c, '4', 'f', 32) for c in range(4)]
-        if got == want:
-            res.ok(rule, 'frame.point', ws[0]['where'], 'x, y, z, residual = _data[0..3], 4 bytes each from 32-bit floats', function=pc[1].sig, expr='frame.point')
+        if pp is None:
+            res.undecided(rule, 'frame.point', pc[1].loc(), 'Point::write is not a straight-line sequence of writes', function=pc[1].sig, expr='frame.point')
         else:
-            res.viol(rule, 'frame.point', pc[1].loc(), 'a point is written as %s; specified %s' % (got, want), function=pc[1].sig, expr='frame.point')
+            bad = None
+            for conds, ws in pp:
+                got = [(re.sub(r'^.*\._data', '_data', d.get('src') or ''), pshow(d.get('width')), d.get('src_tc'), d.get('src_tw')) for d in ws]
+                if got != want:
+                    bad = (conds, got)
+                    break
+            if bad is None:
+                res.ok(rule, 'frame.point', pc[1].loc(), 'x, y, z, residual = _data[0..3], 4 bytes each from 32-bit floats (on each of %d path(s))' % len(pp), function=pc[1].sig, expr='frame.point')
+            else:
+                res.viol(rule, 'frame.point', pc[1].loc(), 'a point is written as %s%s; specified %s' % (bad[1], (' when ' + ' && '.join(bad[0])) if bad[0] else '', want), function=pc[1].sig, expr='frame.point')
     else:
         res.viol(rule, 'frame.point', parts[0][1].loc(), 'points are not written one Point::write per stored point', function=parts[0][1].sig, expr='frame.point')
     sl = only_loop(parts[1][3], r'.*_analogs\._subframe\.size$')
@@ -1463,8 +1493,12 @@ def frame_writer_rule(prog, res, rule='frame-write'):
     cl = only_loop(sc[3], r'.*_channels\.size$') if sc else None
     cc = only_call(cl[3], 'Channel::write') if cl else None
     if cc:
-        ws = [it[1] for it in io_only(cc[3]) if it[0] == 'io']
-        if len(ws) == 1 and ws[0].get('src', '').endswith('._data') and pshow(ws[0].get('width')) == '4' and (ws[0].get('src_tc'), ws[0].get('src_tw')) == ('f', 32):
+        pp = io_paths(cc[3])
+        bads = [x for x in (pp or []) if not (len(x[1]) == 1 and (x[1][0].get('src') or '').endswith('._data') and pshow(x[1][0].get('width')) == '4' and (x[1][0].get('src_tc'), x[1][0].get('src_tw')) == ('f', 32))]
+        ws = bads[0][1] if bads else (pp[0][1] if pp else [])
+        if pp is None:
+            res.undecided(rule, 'frame.analog', cc[1].loc(), 'Channel::write is not a straight-line sequence of writes', function=cc[1].sig, expr='frame.analog')
+        elif not bads and len(ws) == 1 and (ws[0].get('src') or '').endswith('._data') and pshow(ws[0].get('width')) == '4' and (ws[0].get('src_tc'), ws[0].get('src_tw')) == ('f', 32):
             res.ok(rule, 'frame.analog', ws[0]['where'], 'sub-frames (outer) x channels (inner) x one 4-byte value from a 32-bit float', function=cc[1].sig, expr='frame.analog')
         else:
             res.viol(rule, 'frame.analog', cc[1].loc(), 'a channel is written as %s' % [(d.get('src'), pshow(d.get('width')), d.get('src_tc'), d.get('src_tw')) for d in ws],
